@@ -2,6 +2,7 @@
 
 from typing import Optional
 
+import torch
 from linear_operator import to_linear_operator
 from linear_operator.operators import KroneckerProductLinearOperator
 
@@ -47,14 +48,16 @@ class MultitaskKernel(Kernel):
         if last_dim_is_batch:
             raise RuntimeError("MultitaskKernel does not accept the last_dim_is_batch argument.")
         covar_i = self.task_covar_module.covar_matrix
-        if len(x1.shape[:-2]):
-            covar_i = covar_i.repeat(*x1.shape[:-2], 1, 1)
         # We call forward directly (bypassing Kernel.__call__), so apply the data kernel's active_dims here
         data_active_dims = self.data_covar_module.active_dims
         if data_active_dims is not None:
             x1 = x1.index_select(-1, data_active_dims)
             x2 = x2.index_select(-1, data_active_dims)
         covar_x = to_linear_operator(self.data_covar_module.forward(x1, x2, **params))
+        # task and data covariance may each carry batch dimensions the other one lacks
+        batch_shape = torch.broadcast_shapes(covar_x.batch_shape, covar_i.batch_shape)
+        covar_x = covar_x.expand(*batch_shape, *covar_x.matrix_shape)
+        covar_i = covar_i.expand(*batch_shape, *covar_i.matrix_shape)
         res = KroneckerProductLinearOperator(covar_x, covar_i)
         return res.diagonal(dim1=-1, dim2=-2) if diag else res
 
